@@ -517,6 +517,10 @@ class ContiguousDataReader(BaseDataReader):
         """ Read data from a chunk for a single channel
         """
         channel_data = RawChannelDataChunk.empty()
+        if (self.final_chunk_lengths_override is not None and chunk_index == (self.num_chunks - 1) and
+                self.final_chunk_lengths_override.get(channel_path, 0) == 0):
+            # This channel has no values in the truncated final chunk, so there is nothing to skip over or read
+            return channel_data
         current_position = file.tell()
         for obj in data_objects:
             number_values = self._get_channel_number_values(obj, chunk_index)
